@@ -2,6 +2,7 @@ import Driver.Proto
 import PtVerif.Model.FormulaOps
 import PtVerif.Model.Symbols
 import PtVerif.Model.Density
+import PtVerif.Model.Mix
 import PtVerif.Generated.FormulaConsts
 import Std.Data.HashMap
 /-! Driver sub-command `formula`: the formula algebra (C02, C19) at `Float`. -/
@@ -38,6 +39,111 @@ def showOptF : Option Float → String
 
 /-- split `… <items> rest` -/
 def itemsThen (t : Toks) : Option (Items Float × Toks) := readItems t
+
+
+/-- result of evaluating a mixture expression: value, `.total_mass`, `.thickness` -/
+structure MixRes where
+  f : FVal Float
+  totalMass : Option Float := none
+  thickness : Option Float := none
+
+def unitFactor (tbl : List (String × Nat × Nat)) (u : String) : Option Float :=
+  (tbl.find? (·.1 = u)).map fun e => Float.ofNat e.2.1 / Float.ofNat e.2.2
+
+def readTag (tag : String) : Option (Option (Float × Bool)) :=
+  if tag = "-" then some none
+  else if tag.startsWith "n" then (readF (tag.drop 1).toString).map fun v => some (v, true)
+  else if tag.startsWith "i" then (readF (tag.drop 1).toString).map fun v => some (v, false)
+  else none
+
+/-- the mixture expression evaluator: the tree walk only; every semantic action is a total
+    function of `Model/Mix.lean` / `Model/Density.lean`.
+    `none` = protocol error; `some none` = the real code raises ValueError. -/
+partial def evalMix (st : St) : Toks → Option (Option MixRes × Toks)
+  | "C" :: rest => do
+      let (s, r) ← readItems rest
+      match r with
+      | tag :: r' =>
+        let tg ← readTag tag
+        let d := stringDensity st.am st.atomDens s.atoms tg none none
+        some (some { f := ⟨s, d⟩ }, r')
+      | [] => none
+  | "P" :: rest => do
+      let (inner, r) ← evalMix st rest
+      match r with
+      | tag :: r' =>
+        let tg ← readTag tag
+        match inner with
+        | none => some (none, r')
+        | some m =>
+          -- convert_mixture: formula.natural_density = v / formula.density = v
+          let d := match tg with
+            | none => m.f.density
+            | some (v, true) => some (setNaturalDensity st.am m.f.s.atoms v)
+            | some (v, false) => some v
+          some (some { m with f := ⟨m.f.s, d⟩ }, r')
+      | [] => none
+  | kind :: n :: rest => do
+      let n ← natTok n
+      if kind = "W" ∨ kind = "V" then
+        let rec parts (k : Nat) (t : Toks) (acc : List (Float × FVal Float)) (bad : Bool) :
+            Option (List (Float × FVal Float) × Bool × Toks) :=
+          match k with
+          | 0 => some (acc.reverse, bad, t)
+          | k + 1 =>
+            match t with
+            | q :: t' => do
+              let q ← readF q
+              let (m, t'') ← evalMix st t'
+              match m with
+              | some m => parts k t'' ((q, m.f) :: acc) bad
+              | none => parts k t'' acc true
+            | [] => none
+        let (ps, bad, r) ← parts n rest [] false
+        let (base, r') ← evalMix st r
+        match base, bad with
+        | some b, false =>
+          let res := if kind = "W" then byWeightPercent st.am ps b.f else byVolumePercent st.am ps b.f
+          some (res.map fun f => { f := f }, r')
+        | _, _ => some (none, r')
+      else if kind = "L" ∨ kind = "A" then
+        let rec parts2 (k : Nat) (t : Toks) (acc : List (Option (Float × FVal Float))) :
+            Option (List (Option (Float × FVal Float)) × Toks) :=
+          match k with
+          | 0 => some (acc.reverse, t)
+          | k + 1 =>
+            match t with
+            | "T" :: v :: u :: t' => do            -- layer: thickness unit mixture
+              let v ← readF v
+              let fac ← unitFactor PtGen.lengthUnits u
+              let (m, t'') ← evalMix st t'
+              parts2 k t'' ((m.map fun m => (v * fac, m.f)) :: acc)
+            | "Q" :: v :: u :: t' => do            -- absolute mass or volume
+              let v ← readF v
+              let (m, t'') ← evalMix st t'
+              match unitFactor PtGen.massUnits u, unitFactor PtGen.volumeUnits u with
+              | some fac, _ =>
+                parts2 k t'' ((m.bind fun m => (absMassOf m.f v fac false).map fun q => (q, m.f)) :: acc)
+              | none, some fac =>
+                parts2 k t'' ((m.bind fun m => (absMassOf m.f v fac true).map fun q => (q, m.f)) :: acc)
+              | none, none => none
+            | "G" :: c :: t' => do                 -- ( same-kind mixture ) count
+              let c ← readF c
+              let (m, t'') ← evalMix st t'
+              let q := m.bind fun m =>
+                (if kind = "L" then m.thickness else m.totalMass).map fun x => (x * c, m.f)
+              parts2 k t'' (q :: acc)
+            | _ => none
+        let (ps, r) ← parts2 n rest []
+        if ps.any Option.isNone then some (none, r) else
+        let ps := ps.filterMap id
+        if kind = "L" then
+          some ((byLayer st.am ps).map fun (f, t) => { f := f, thickness := some t }, r)
+        else
+          let (f, t) := byAbsMass st.am ps
+          some (some { f := f, totalMass := some t }, r)
+      else none
+  | _ => none
 
 def withObj (st : St) (r : String) (k : Items Float → IO Unit) : IO Unit :=
   match natTok r >>= st.heap.obj with
@@ -175,6 +281,14 @@ def handle (st : St) : Toks → IO St
     match readF a, optF b, optF c, optF al, optF be, optF ga with
     | some a, some b, some c, some al, some be, some ga => reply (showF (latticeVolume a b c al be ga))
     | _, _, _, _, _, _ => reply "ERR bad-op"
+    pure st
+  | "mix" :: rest => do
+    match evalMix st rest with
+    | some (some m, []) =>
+      reply ("OK " ++ showItems m.f.s ++ " | " ++ showOptF m.f.density ++ " | " ++ showOptF m.totalMass
+        ++ " | " ++ showOptF m.thickness)
+    | some (none, []) => reply "ERR ValueError"
+    | _ => reply "ERR bad-op"
     pure st
   | ["struct", r] => do withObj st r (fun s => reply (showItems s)); pure st
   | ["atoms", r] => do withObj st r (fun s => reply ("atoms " ++ showAList s.atoms)); pure st
